@@ -4,7 +4,7 @@
 From Coq Require Import String Ascii.
 From Coq Require Import List Arith ZArith Bool.
 Import ListNotations.
-Require Import MD.Topo.Model MD.Topo.Carriers.
+Require Import MD.Topo.Model MD.Topo.Carriers MD.Gen.TopoStdBonds.
 Open Scope nat_scope.
 
 Inductive op :=
@@ -84,7 +84,7 @@ Definition step (fl : flags) (st : state) (o : op) : state :=
   | OPickle s => new (t <- top s ;; Some (pickle h t))
   | ODataFrame s => new (t <- top s ;; v <- abs h t ;; build_from h (df_round (f_df_serial fl) v))
   | OH5 s => new (t <- top s ;; v <- abs h t ;; build_from h (h5_round (f_h5_full fl) v))
-  | OPdb s ter => new (t <- top s ;; recs <- pdb_write fl ter h t ;; build_from h (pdb_read recs))
+  | OPdb s ter => new (t <- top s ;; recs <- pdb_write fl ter h t ;; build_from h (pdb_read std_bonds recs))
   end.
 
 Definition run (fl : flags) (ops : list op) : state := fold_left (step fl) ops init.
